@@ -191,7 +191,13 @@ fn check_case(c: &SeqCase, obs: &mut Obs) -> Verdict {
     }
     // fault enumeration: every call index fails once
     let mut execs = 1u64;
-    for k in 0..log.len() {
+    // large fixed cases (k flag set): a sample of failing positions instead of all of them
+    let ks: Vec<usize> = if c.k.is_some() && log.len() > 8 {
+        vec![0, 1, log.len() / 3, log.len() / 2, log.len() - 2, log.len() - 1]
+    } else {
+        (0..log.len()).collect()
+    };
+    for k in ks {
         let r = match run(c, stack, overrides, Some(k)) {
             Ok(r) => r,
             Err(p) => return Verdict::Fail(format!("{} failing at call {}: {}", name, k, p)),
@@ -245,6 +251,32 @@ fn enum_small(tier: Tier, f: &mut dyn FnMut(SeqCase) -> bool) {
     }
 }
 
+/// fixed large cases (size-gated code paths): LCS tables of 360 000 cells, long Myers/Patience runs
+fn enum_large(_tier: Tier, f: &mut dyn FnMut(SeqCase) -> bool) {
+    let mut inputs: Vec<(u8, Vec<u32>, Vec<u32>)> = vec![
+        (2, lcg_seq(21, 600, 40), lcg_seq(22, 600, 40)),
+        (2, lcg_seq(23, 530, 3), lcg_seq(24, 520, 3)),
+        (0, lcg_seq(25, 2500, 6), lcg_seq(26, 2400, 6)),
+        (1, lcg_seq(27, 2500, 6), lcg_seq(28, 2400, 6)),
+    ];
+    let a: Vec<u32> = (0..3000).collect();
+    let mut b = a.clone();
+    b.swap(10, 2000);
+    b.remove(1500);
+    inputs.push((1, a.clone(), b.clone()));
+    inputs.push((0, a, b));
+    for (alg, old, new) in inputs {
+        for mode in [0u8, 1, 3, 6] {
+            let mut c = SeqCase::full(alg, old.clone(), new.clone());
+            c.mode = mode;
+            c.k = Some(1);
+            if !f(c) {
+                return;
+            }
+        }
+    }
+}
+
 impl Prop for C08 {
     type Case = SeqCase;
     const ID: &'static str = "C08";
@@ -263,6 +295,14 @@ impl Prop for C08 {
                     scope: format!("all (old,new) over {{0,1}} with lengths <= {} x 3 algorithms x 8 stacks x 2 hook flavours x every failing call index", tier.pick(4, 5)),
                     exhaustive: true,
                     gen: enum_small,
+                },
+            },
+            Stage {
+                name: "large",
+                kind: StageKind::Enumerate {
+                    scope: "6 fixed large inputs (LCS 600x600 and 530x520, Myers/Patience 2500 vs 2400 over 6 letters and 3000 distinct items with a swap) x 4 stacks; success log + 6 sampled failing call indices".into(),
+                    exhaustive: true,
+                    gen: enum_large,
                 },
             },
             Stage { name: "random", kind: StageKind::Random { strategy: strat, cases: tier.pick(200_000, 1_500_000) } },
